@@ -69,15 +69,19 @@ def _reads_with_field(rv):
     """[(local, first field projection or None)] read by an rvalue (field-sensitive on the first projection element)"""
     ops, places = rv_operands(rv)
     out = []
+    def first_field(p):
+        # `(*x).f` reads field f of what x points to: derefs in front of the field do not matter for which field it is
+        q = [e for e in p if e != '*']
+        return q[0] if q and q[0].startswith('f:') and (not p or p[0] == '*' or p[0].startswith('f:')) else None
     for o in ops:
         pl = op_place(o)
         if pl is not None:
             p = pl.get('p', [])
-            out.append((pl['l'], p[0] if p and p[0].startswith('f:') else None))
+            out.append((pl['l'], first_field(p)))
             out += [(int(x[2:]), None) for x in p if x.startswith('i:')]
     for pl in places:
         p = pl.get('p', [])
-        out.append((pl['l'], p[0] if p and p[0].startswith('f:') else None))
+        out.append((pl['l'], first_field(p)))
     return out
 
 
@@ -124,7 +128,12 @@ def backward_slice(body, local, defs=None, through_calls=True, max_nodes=4000, s
                         continue
                 if fld is not None and node['lhs'].get('p') and node['lhs']['p'][0].startswith('f:') and node['lhs']['p'][0] != fld:
                     continue   # a write to a different field of the same local
-                work += _reads_with_field(rv)
+                reads = _reads_with_field(rv)
+                if fld is not None and rv['k'] in ('use', 'ref') and not node['lhs'].get('p') and len(reads) == 1 and reads[0][1] is None:
+                    src = rv.get('pl') or op_place(rv['op'])
+                    if src is not None and all(e == '*' for e in src.get('p', [])):
+                        reads = [(reads[0][0], fld)]      # a copy of / reference to the whole value: the field asked for is the field of the source
+                work += reads
             elif node.get('k') == 'call':
                 if through_calls:
                     for a in node['args']:
@@ -239,6 +248,8 @@ def slice_strs(fb, body, sl):
                 out += promoted_strs(fb, body, o['promoted'], o.get('powner'))
             elif 'uneval' in o and 'promoted' not in o:
                 out.append('const:' + o['uneval'])
+                if o['uneval'].startswith(body.crate + '::'):
+                    out += static_strs(fb, body, o['uneval'])       # a `const NAME: &str = ".."` of the crate: its value
             elif 'static' in o:
                 out += static_strs(fb, body, o['static'])
     return out
